@@ -438,6 +438,34 @@ pub fn run(ctx: &Ctx) -> Vec<Eng> {
     }
     engines.push(e2);
 
+    let (ph, maxp) = if ctx.thorough { (64, 5) } else { (40, 4) };
+    let mut e2b = Eng::new(
+        "c05-periodic",
+        "periodic histories: every primitive word of length <= p over {P(1), P(-2), N, E1, E2} repeated to H events, and every history differing from one of these in exactly one position; same oracles as c05-seqs (long runs with many resets / errors in a regular pattern)",
+        &format!("H={} p<={} => {} histories x 17 streams", ph, maxp, periodic_count(5, maxp, ph)),
+    );
+    for kind in 0..17 {
+        par_periodic(&mut e2b, 5, maxp, ph, budget, |seq, e| {
+            let h: Vec<Ev> = seq.iter().map(|&s| SYMS[s]).collect();
+            e.sample(|| format!("{}: [{}]", KIND_NAMES[kind], hist_name(&h)));
+            check_history(kind, &h, e)
+        });
+        par_long(&mut e2b, 5, 2, &LONG_LENS, budget, |seq, e| {
+            let h: Vec<Ev> = seq.iter().map(|&s| SYMS[s]).collect();
+            check_history(kind, &h, e)
+        });
+    }
+    e2b.bounds.push_str(&format!("; plus long runs: every primitive word of length <= 2 repeated to 255..257 and 511..513 events followed by one event of each kind ({} histories x 17 streams)", long_count(5, 2, &LONG_LENS)));
+    engines.push(e2b);
+    // freeze: periodic condition/input rounds
+    let mut e3b = Eng::new(
+        "c05-freeze-periodic",
+        "freeze: every primitive word of length <= 3 over the 16 (condition, input) round kinds repeated to H rounds, plus one deviation; reference machine as in c05-freeze",
+        &format!("H={} => {} histories", ph, periodic_count(16, 3, ph)),
+    );
+    par_periodic(&mut e3b, 16, 3, ph, budget, |seq, e| freeze_history(seq, e));
+    engines.push(e3b);
+
     let fdepth = if ctx.thorough { 6 } else { 4 };
     let mut e3 = Eng::new(
         "c05-freeze",
